@@ -256,6 +256,9 @@ func loopCase(c *mon.Case) {
 	idx.Add(mkLoop())
 	reg := idx.Region()
 	variants["ShapeIndexRegion"] = bounds{rect: reg.RectBound(), cap: reg.CapBound(), cells: reg.CellUnionBound()}
+	// a RegionUnion holding the loop next to a far cap and a point: its bounds must still hold the loop
+	ru := s2.RegionUnion{s2.CapFromCenterAngle(gen.Uniform(r), s1.Angle(gen.LogUniform(r, 1e-6, 0.5))), mkLoop(), gen.Uniform(r)}
+	variants["RegionUnion"] = bounds{rect: ru.RectBound(), cap: ru.CapBound(), cells: ru.CellUnionBound()}
 
 	var probes []s2.Point
 	var kinds []string
